@@ -444,6 +444,9 @@ class Sccp:
         c = op_const(op)
         if c is not None and c.get("val") is not None:
             return I(c["val"])
+        if c is not None and isinstance(c.get("str"), str) and c.get("ty") == "&str" and c["str"].startswith('"'):
+            # a string literal: a value like any other constant (compared for equality only)
+            return ("str", c["str"])
         if c is not None and isinstance(c.get("str"), str):
             import re as _re
             m = _re.match(r"promoted\{(\d+)_\w+, core::option::Option::Some\}", c["str"])
